@@ -73,6 +73,18 @@ def _elim_returns(stmts: List[ast.stmt], ret: str) -> Tuple[List[ast.stmt], bool
                 out.append(st)
                 out.extend(rest_new)
             return out, rr
+        if isinstance(st, ast.Try) and not rest and not st.finalbody and not st.orelse and _contains_return([st]):
+            # `try: ...; return A` / `except X: ...; return B` as the last statement: every block ends in its own return
+            body, rb = _elim_returns(st.body, ret)
+            hs, ok_h = [], rb
+            for h in st.handlers:
+                hb, rh = _elim_returns(h.body, ret)
+                ok_h = ok_h and (rh or _definitely_returns(h.body))
+                hs.append(ast.copy_location(ast.ExceptHandler(type=h.type, name=h.name, body=hb or [ast.Pass()]), h))
+            if ok_h:
+                out.append(ast.copy_location(ast.Try(body=body, handlers=hs, orelse=[], finalbody=[]), st))
+                return out, True
+            raise _Unsupported("try with a block that falls through")
         if isinstance(st, (ast.For, ast.While, ast.Try, ast.With)) and _contains_return([st]):
             # bare returns inside the LAST statement of the helper, which is a loop (possibly with try inside): leaving the
             # helper is leaving that loop
@@ -434,8 +446,53 @@ class _Inliner:
         return stmts, ast.copy_location(result, call)
 
     # ------------------------------------------------------------------
-    def rewrite_block(self, stmts: List[ast.stmt], cls: Optional[str], owner: str) -> Tuple[List[ast.stmt], bool]:
+    def desugar(self, stmts: List[ast.stmt], cls: Optional[str], owner: str) -> Tuple[List[ast.stmt], bool]:
+        """`X = [helper(v) for v in it]` (or the same inside tuple(...) / sum(...)) with an unknown private helper in the element:
+        written as `tmp = []; for v in it: tmp.append(helper(v)); X = tmp` in the view, so that the call can be inlined"""
         out, changed = [], False
+        for st in stmts:
+            if isinstance(st, (ast.Assign, ast.Return, ast.Expr, ast.AugAssign)) and getattr(st, "value", None) is not None:
+                comp = None
+                for x in ast.walk(st.value):
+                    if isinstance(x, (ast.ListComp, ast.GeneratorExp)) and len(x.generators) == 1 and not x.generators[0].is_async:
+                        calls = [c for c in ast.walk(x.elt) if isinstance(c, ast.Call)]
+                        res = [self.resolve(c, cls) for c in calls]
+                        if any(r_ is not None and r_[0].fn.name != owner and r_[0].supported and not r_[0].calls_itself for r_ in res):
+                            comp = x
+                            break
+                    if isinstance(x, (ast.Lambda, ast.IfExp, ast.BoolOp)):
+                        pass
+                if comp is not None and not any(isinstance(y, (ast.Lambda,)) and any(z is comp for z in ast.walk(y)) for y in ast.walk(st.value)):
+                    self.counter += 1
+                    tmp = f"_cmp{self.counter}"
+                    g = comp.generators[0]
+                    app = ast.Expr(value=ast.Call(func=ast.Attribute(value=ast.Name(id=tmp, ctx=ast.Load()), attr="append", ctx=ast.Load()), args=[comp.elt], keywords=[]))
+                    body: List[ast.stmt] = [app]
+                    for cond in reversed(g.ifs):
+                        body = [ast.If(test=cond, body=body, orelse=[])]
+                    loop = ast.For(target=g.target, iter=g.iter, body=body, orelse=[])
+                    init = ast.Assign(targets=[ast.Name(id=tmp, ctx=ast.Store())], value=ast.List(elts=[], ctx=ast.Load()))
+
+                    class _Swap(ast.NodeTransformer):
+                        def visit_ListComp(self_, n):
+                            return ast.Name(id=tmp, ctx=ast.Load()) if n is comp else self_.generic_visit(n)
+
+                        def visit_GeneratorExp(self_, n):
+                            return ast.Name(id=tmp, ctx=ast.Load()) if n is comp else self_.generic_visit(n)
+
+                    st.value = _Swap().visit(st.value)
+                    for new_ in (init, loop):
+                        ast.copy_location(new_, st)
+                        ast.fix_missing_locations(new_)
+                    out += [init, loop, st]
+                    changed = True
+                    continue
+            out.append(st)
+        return out, changed
+
+    def rewrite_block(self, stmts: List[ast.stmt], cls: Optional[str], owner: str) -> Tuple[List[ast.stmt], bool]:
+        stmts, changed0 = self.desugar(stmts, cls, owner)
+        out, changed = [], changed0
         for st in stmts:
             # recurse into compound statements first
             for field in ("body", "orelse", "finalbody"):
@@ -498,7 +555,11 @@ class _Inliner:
                     tnames = [e_.id for e_ in st.targets[0].elts]
                     rets = [a_ for s_ in pre for a_ in ast.walk(s_) if isinstance(a_, ast.Assign) and len(a_.targets) == 1 and isinstance(a_.targets[0], ast.Name) and a_.targets[0].id == val.id]
                     other_uses = [x for s_ in pre for x in ast.walk(s_) if isinstance(x, ast.Name) and x.id == val.id and not any(x is a_.targets[0] for a_ in rets)]
-                    mentions = any(isinstance(x, ast.Name) and x.id in tnames for s_ in pre for x in ast.walk(s_))
+                    # the targets may be read in the inlined body (a parameter handed on under its own name) as long as the body never
+                    # assigns them and no element of a returned tuple reads a target bound before it
+                    stores_t = any(isinstance(x, ast.Name) and x.id in tnames and isinstance(x.ctx, ast.Store) for s_ in pre for x in ast.walk(s_))
+                    order_ok = all(isinstance(a_.value, ast.Tuple) and not any(isinstance(x, ast.Name) and x.id in tnames[:j] for j, e_ in enumerate(a_.value.elts) for x in ast.walk(e_)) for a_ in rets)
+                    mentions = stores_t or not order_ok
                     if rets and not other_uses and not mentions and all(isinstance(a_.value, ast.Tuple) and len(a_.value.elts) == len(tnames) for a_ in rets):
                         def split(stmts_):
                             out_ = []
